@@ -223,7 +223,8 @@ Record model := Model {
 Record options := Options {
   o_rpe : bool; o_rce : bool; o_eca : bool; o_rpv : bool; o_rcv : bool;
   o_elim : option (list name);      (* names matched by eliminable_variable_expression *)
-  o_expand_mx : bool; o_da : bool; o_allow_der : bool; o_iter : bool
+  o_expand_mx : bool; o_da : bool; o_allow_der : bool; o_iter : bool;
+  o_dermap : list (name * name)     (* (x, the symbol named "der(x)"): names are opaque to the model *)
 }.
 
 Definition SUBSTITUTE_LOOP_LIMIT := 100%nat.
@@ -425,6 +426,144 @@ Fixpoint elim_loop (sts al0 al match_ : list name) (es : list expr)
 Fixpoint has_dup (l : list name) : bool :=
   match l with [] => false | x :: l' => mem x l' || has_dup l' end.
 
+(* ---- eliminable differentiated STATES: get_derivative, model.py:848-880 ---- *)
+Definition est : Type := (list name * list (name * name) * list name)%type.  (* states, state -> der symbol, alg_states *)
+Definition GD_FUEL := 40%nat.
+
+(* the side effects of get_derivative(expr): every algebraic symbol the derivative needs becomes a
+   differentiated state (appended to states / der_states) with the fresh symbol "der(x)"; a variable
+   that has been eliminated already is looked through (ab3b403) *)
+Fixpoint promote (fuel : nat) (dermap : list (name * name)) (defs : list (name * expr))
+         (st : option est) (xs : list name) : option est :=
+  match fuel with
+  | O => st
+  | S f =>
+    fold_left (fun st x =>
+      match st with
+      | None => None
+      | Some (sts, dmap, al) =>
+          if mem x sts then st
+          else if mem x al then
+            match lookup x dermap with
+            | Some dx => Some (sts ++ [x], dmap ++ [(x, dx)], remove1 x al)
+            | None => None
+            end
+          else match lookup x defs with
+               | Some v => promote f dermap defs st (symvar v)
+               | None => st
+               end
+      end) xs st
+  end.
+
+(* the value of get_derivative(expr) by the chain rule (the real result is an opaque Jacobian call
+   times the vector of derivatives: only its value is compared) *)
+Fixpoint dexpr (fuel : nat) (dmap : list (name * name)) (defs : list (name * expr)) (e : expr) : expr :=
+  match fuel with
+  | O => Const 0
+  | S f =>
+    (fix go (e : expr) : expr :=
+       match e with
+       | Sym x => match lookup x dmap with
+                  | Some dx => Sym dx
+                  | None => match lookup x defs with Some v => dexpr f dmap defs v | None => Const 0 end
+                  end
+       | Const _ => Const 0
+       | Un Neg a => mk_un Neg (go a)
+       | Un Twice a => mk_un Twice (go a)
+       | Un Sq a => mk_bin Mul (mk_un Twice a) (go a)
+       | Bin Add a b => mk_bin Add (go a) (go b)
+       | Bin Sub a b => mk_bin Sub (go a) (go b)
+       | Bin Mul a b => mk_bin Add (mk_bin Mul (go a) b) (mk_bin Mul a (go b))
+       end) e
+  end.
+
+Inductive ext2 := E2None | E2Alg (x : name) (v : expr) | E2State (x : name) (v : expr).
+(* extract_assignment with the live dictionaries: `sts`, `al` change while the loop runs, `all0` is
+   the snapshot all_states *)
+Definition extract2 (sts all0 al match_ : list name) (e : expr) : ext2 :=
+  match e with
+  | Sym x =>
+      if mem x all0 && mem x match_ then
+        (if mem x sts then E2State x (Const 0) else E2Alg x (Const 0))
+      else E2None
+  | Bin o d0 d1 =>
+      match o with
+      | Mul => E2None
+      | _ =>
+        let is o' := match o' with Sub => true | _ => false end in
+        let hit (d : expr) (l : list name) :=
+          match d with Sym x => if mem x l && mem x match_ then Some x else None | _ => None end in
+        match hit d0 al with
+        | Some x => E2Alg x (if is o then d1 else mk_un Neg d1)
+        | None =>
+          match hit d1 al with
+          | Some x => E2Alg x (if is o then d0 else mk_un Neg d0)
+          | None =>
+            match hit d0 sts with
+            | Some x => E2State x (if is o then d1 else mk_un Neg d1)
+            | None => match hit d1 sts with
+                      | Some x => E2State x (if is o then d0 else mk_un Neg d0)
+                      | None => E2None end
+            end
+          end
+        end
+      end
+  | _ => E2None
+  end.
+
+(* the equation loop with states: returns the final dictionaries, all (variable, value) pairs in the
+   order of `variables`/`values`, the derivative pairs among them, the kept equations *)
+Fixpoint elim_loop2 (dermap : list (name * name)) (all0 match_ : list name) (st : est)
+         (defs : list (name * expr)) (es : list expr)
+  : option (est * list (name * expr) * list (name * expr) * list expr) :=
+  match es with
+  | [] => Some (st, defs, [], [])
+  | e :: es' =>
+      let '(sts, dmap, al) := st in
+      match extract2 sts all0 al match_ e with
+      | E2None =>
+          match elim_loop2 dermap all0 match_ st defs es' with
+          | Some (st', d, dd, kept) => Some (st', d, dd, e :: kept)
+          | None => None
+          end
+      | E2Alg x v => elim_loop2 dermap all0 match_ (sts, dmap, remove1 x al) (defs ++ [(x, v)]) es'
+      | E2State x v =>
+          match promote GD_FUEL dermap defs (Some st) (symvar v) with
+          | None => None
+          | Some (sts1, dmap1, al1) =>
+              match lookup x dmap1 with
+              | None => None
+              | Some dx =>
+                  let dv := dexpr GD_FUEL dmap1 defs v in
+                  match elim_loop2 dermap all0 match_
+                          (remove1 x sts1, filter (fun p => negb (Pos.eqb (fst p) x)) dmap1, al1)
+                          (defs ++ [(dx, dv); (x, v)]) es' with
+                  | Some (st', d, dd, kept) => Some (st', d, (dx, dv) :: dd, kept)
+                  | None => None
+                  end
+              end
+          end
+      end
+  end.
+
+Definition eliminate_vars2 (dermap : list (name * name)) (match_ : list name) (m : model) : model :=
+  match elim_loop2 dermap (states m ++ algs m) match_
+                   (states m, combine (states m) (ders m), algs m) [] (eqs m) with
+  | None => set_failed m
+  | Some ((sts, dmap, al), defs, ddefs, kept) =>
+      if has_dup (map fst defs) then set_failed m else
+      let vars := map fst defs in
+      let '(vals, conv) := subst_fix SUBSTITUTE_LOOP_LIMIT vars (map snd defs) in
+      let s := combine vars vals in
+      Model sts (map snd dmap) al (inputs m) (consts m) (params m)
+            (map (subst s) kept) (map (subst s) (ieqs m)) (arel m) (ghost m ++ s)
+            (warned m || negb conv) (failed m)
+  end.
+
+(* no eliminable variable is a differentiated state: the algebraic-only pass below applies *)
+Definition no_elim_state (match_ : list name) (m : model) : bool :=
+  let '(_, _, _, u) := elim_loop (states m) (algs m) (algs m) match_ (eqs m) in negb u.
+
 Definition eliminate_vars (match_ : list name) (m : model) : model :=
   let '(al, defs, kept, unsupported) := elim_loop (states m) (algs m) (algs m) match_ (eqs m) in
   (* the same variable extracted twice (a bare-symbol equation is looked up in the un-shrunk
@@ -566,7 +705,10 @@ Definition simplify_once (o : options) (m : model) : model :=
   let m := step (o_rpv o) replace_param_values m in
   let m := step (o_rcv o) replace_const_values m in
   let m := match o_elim o with
-           | Some ns => step true (fun m => if o_expand_mx o then eliminate_vars ns m else set_failed m) m
+           | Some ns => step true (fun m => if o_expand_mx o
+                                            then (if no_elim_state ns m then eliminate_vars ns m
+                                                  else eliminate_vars2 (o_dermap o) ns m)
+                                            else set_failed m) m
            | None => m end in
   let m := step (o_da o) (detect_aliases (o_allow_der o)) m in
   m.
